@@ -58,3 +58,12 @@ Example C18_nonvacuous :
   feval env (FAnd [FCmp (PDur 3600) Ge (VInt 2); FOr [FHasAll 2%N [1%N; 2%N]; FCmp (PField 0%N) Eq (VInt 9)]]) ev = true /\
   feval env (FCmp (PDur 3600) Gt (VInt 2)) ev = false.
 Proof. vm_compute. split; reflexivity. Qed.
+
+(* ---- tie C: Filtered.fetch as the code has it (translation of its source text, regenerated
+   from /repo on every run): exactly the source's events that satisfy the predicate, in order *)
+From CG Require Import Gen.Source Proofs.GenEq.
+
+Theorem C18_source_filtered_fetch_is_model : forall src f a b rv,
+  g_filtered_fetch src f a b rv = filter f (src a b rv).
+Proof. exact g_filtered_fetch_eq. Qed.
+Print Assumptions C18_source_filtered_fetch_is_model.
